@@ -271,6 +271,65 @@ var c19StaticMustReject = map[string]string{
 	"stray ']' at the start of the second field's parser tag":                      "has an unmatched ']' where the second field's grammar starts",
 }
 
+// Fields whose tag is there but holds no token (blanks only, a comment only)
+// between fields that do: the tag language skips them, the grammar is the one
+// the other fields spell.
+type c19S38 struct {
+	A string `@Ident`
+	B string ` `
+	C string `@Int`
+}
+type c19S39 struct {
+	A string `parser:"@Ident"`
+	B string `parser:"  "`
+	C string `parser:"@Int"`
+	D string `parser:"// nothing here"`
+	E string `parser:"@Ident"`
+}
+type c19S40 struct {
+	A string   `@Ident "="`
+	B string   `  `
+	C string   `  `
+	D []string `@Int*`
+}
+
+// c19Blank builds one of the types above and, when it builds, parses the one
+// input its token-bearing fields spell; a wrong grammar is reported as an error
+// (must-build cases turn that into a violation).
+func c19Blank[T any](input string, want func(*T) bool) func() error {
+	return func() error {
+		p, err := participle.Build[T]()
+		if err != nil {
+			return err
+		}
+		v, err := p.ParseString("", input)
+		if err != nil {
+			return fmt.Errorf("built, but the grammar is not the one the tags spell: %q is rejected: %v", input, err)
+		}
+		if !want(v) {
+			return fmt.Errorf("built, but the grammar is not the one the tags spell: %q parses to %+v", input, *v)
+		}
+		return nil
+	}
+}
+
+// non-struct union members
+type c19Quoted string
+
+func (q *c19Quoted) Parse(lex *lexer.PeekingLexer) error {
+	t := lex.Peek()
+	if t.EOF() {
+		return participle.NextMatch
+	}
+	*q = c19Quoted(lex.Next().Value)
+	return nil
+}
+func (c19Quoted) isC19() {}
+
+type c19Count int
+
+func (c19Count) isC19() {}
+
 func c19B[T any](opts ...participle.Option) func() error {
 	return func() error { _, err := participle.Build[T](opts...); return err }
 }
@@ -327,6 +386,11 @@ var c19StaticCases = []struct {
 	{"stray ')' at the start of the second field's tag", c19B[c19S35](), false},
 	{"stray '+' at the start of the second field's tag after a complete repetition", c19B[c19S36](), false},
 	{"stray ']' at the start of the second field's parser tag", c19B[c19S37](), false},
+	{"middle field whose tag is a single blank", c19Blank[c19S38]("a 1", func(v *c19S38) bool { return v.A == "a" && v.C == "1" && v.B == "" }), true},
+	{"middle fields whose parser tags are blank or a comment only", c19Blank[c19S39]("a 1 b", func(v *c19S39) bool { return v.A == "a" && v.C == "1" && v.E == "b" }), true},
+	{"two blank-tagged fields before a repetition", c19Blank[c19S40]("a = 1 2", func(v *c19S40) bool { return v.A == "a" && len(v.D) == 2 }), true},
+	{"union with a Parseable member of string kind (by pointer)", c19B[c19S23](participle.Union[c19Iface](c19M1{}, new(c19Quoted))), true},
+	{"union with a non-Parseable member of int kind", c19B[c19S23](participle.Union[c19Iface](c19M1{}, c19Count(0))), false},
 	{"union with a nil member", c19B[c19S23](participle.Union[c19Iface](c19M1{}, nil)), false},
 	{"Elide of an unknown token type", c19B[c19S11](participle.Elide("Nope")), false},
 	{"Map on an unknown token type", c19B[c19S11](participle.Upper("Nope")), false},
